@@ -202,8 +202,10 @@ example :
   constructor
   · apply (C14_reject (K := ℚ) (1 / 1000000000) (by norm_num) 2 3 (by decide) (by decide) _).1.2
     refine ⟨?_, ?_, ?_⟩
-    · intro p hp; simp at hp; rcases hp with h | h | h <;> rw [h] <;> norm_num
-    · intro p hp; simp at hp; rcases hp with h | h | h <;> rw [h] <;> norm_num
+    · intro p hp; simp only [List.mem_cons, List.mem_nil_iff, or_false] at hp
+      rcases hp with h | h | h <;> rw [h] <;> norm_num
+    · intro p hp; simp only [List.mem_cons, List.mem_nil_iff, or_false] at hp
+      rcases hp with h | h | h <;> rw [h] <;> norm_num
     · unfold CloseTo1; norm_num
   · apply (C14_reject_kinds (K := ℚ) (1 / 1000000000) (by norm_num) 2 3 (by decide) (by decide) _).1
     exact ⟨-1 / 2, by simp, by norm_num⟩
